@@ -24,9 +24,9 @@ Hypothesis Hmr : midcheck = true \/ recheck = true.
 
 Local Notation state := (state data).
 Local Notation inv := (inv data zero lock).
-Local Notation step := (step data lock midcheck true recheck true).
-Local Notation verify := (verify data true).
-Local Notation do_sync := (do_sync data lock true).
+Local Notation step := (step data lock midcheck true recheck true true).
+Local Notation verify := (verify data true true).
+Local Notation do_sync := (do_sync data lock true true).
 
 (** everything of the live generation is replicated (or nothing was ever replicated) *)
 Definition at_end (s : state) : Prop :=
@@ -92,12 +92,12 @@ Definition post_mode (p : pcT) : option mode := match p with PPost m _ _ _ => So
 Definition freeb (p : pcT) : bool := frfreeb p || (recheck && (postpendb p || ispostb p)).
 
 (** a session re-opened over existing level-0 files still holds the read mark it
-    took at Open and is outside the checkpoint protocol: nothing is known about
-    where its cursor stands *)
-Definition weakb (s : state) : bool := idleish (pc data s) && openmark data s.
-(** a lost cursor that the fresh-session rule (3b58009) turns into a snapshot *)
+    took at Open, is outside the checkpoint protocol and has not yet reached the
+    end of the WAL: nothing is known about where its cursor stands *)
+Definition weakb (s : state) : bool := idleish (pc data s) && openmark data s && negb (reached data s).
+(** a lost cursor that the fresh-session rule (3b58009, c55c7c6) turns into a snapshot *)
 Definition freshlostb (s : state) : bool :=
-  idleish (pc data s) && (lastoff data s =? 0) && negb (cgen data s =? gen data s).
+  idleish (pc data s) && negb (reached data s) && negb (cgen data s =? gen data s).
 
 Record safe (s : state) : Prop := mkSafe {
   s_K : wlock data s = false -> mark_low (ls_mark data s) = true ->
@@ -113,7 +113,7 @@ Record safe (s : state) : Prop := mkSafe {
         hg <= gen data s /\ (post_truncb (pc data s) = true -> hg < gen data s) /\
         (rb_of (pc data s) = true -> hg < gen data s);
   s_O : opened data s = false ->
-        lastoff data s = 0 /\ ls_mark data s = None /\ wlock data s = false;
+        reached data s = false /\ ls_mark data s = None /\ wlock data s = false;
   s_N : ls_mark data s = None ->
         opened data s = false \/ relb (pc data s) = true;
   s_P : opened data s = false -> pc data s = Idle;
@@ -122,7 +122,7 @@ Record safe (s : state) : Prop := mkSafe {
         wlock data s = false -> mark_low (ls_mark data s) = true ->
         backfilled data s = length (txs data s) -> at_end s;
   s_G : cgen data s <= gen data s;
-  s_Z : lastoff data s = 0 -> flag data s = false }.
+  s_Z : reached data s = false -> flag data s = false }.
 
 Lemma flen_firstn_le (ts : list (tx data)) c : flen data (firstn c ts) <= flen data ts.
 Proof.
@@ -175,8 +175,8 @@ Proof.
   destruct (phys data s); [discriminate|].
   destruct (verify s) as [| |cl] eqn:Ev.
   - intros E. inversion E; subst. cbn. intros A. destruct (l0 data s); discriminate.
-  - intros _. apply F. apply (verify_incrat _ _ _ Ev).
-  - intros _. apply F. apply (verify_incrhdr _ _ _ _ Ev).
+  - intros _. apply F. apply (verify_incrat _ _ _ _ Ev).
+  - intros _. apply F. apply (verify_incrhdr _ _ _ _ _ Ev).
 Qed.
 
 Lemma do_sync_cur s k s' :
@@ -197,7 +197,7 @@ Proof.
   destruct (verify s) as [| |cl] eqn:Ev.
   - intros E. inversion E; subst. cbn.
     split; [auto|]. split; [discriminate|auto].
-  - destruct (verify_incrat _ _ _ Ev) as [Hl Hg].
+  - destruct (verify_incrat _ _ _ _ Ev) as [Hl Hg].
     destruct (idx data (txs data s) (cfo data s)) as [c|] eqn:Ei; [|discriminate].
     assert (Hlive : forall c', cur data s = AtLive c' -> c' = c).
     { intros c' Ec. rewrite Ec in Hc. destruct Hc as [Hle [_ [Hcfo _]]].
@@ -238,7 +238,7 @@ Proof.
         -- contradiction.
         -- split; [intros [A|[A|[A _]]]; [contradiction|discriminate|discriminate]|].
            split; [intros A0; split; [exact A0|discriminate]|]. intros A. discriminate.
-  - destruct (verify_incrhdr _ _ _ _ Ev) as [Hl Hg].
+  - destruct (verify_incrhdr _ _ _ _ _ Ev) as [Hl Hg].
     assert (Hnl : forall c', cur data s <> AtLive c').
     { intros c' Ec. rewrite Ec in Hc. destruct Hc as [Hle [Hgg [Hcfo _]]].
       destruct Hg as [Hg|Hg]; [|contradiction].
@@ -355,47 +355,17 @@ Proof.
   - left. reflexivity.
 Qed.
 
-Lemma weak_reset_lost s :
-  inv s -> safe s -> weakb s = true -> catching_up data s = false ->
-  cur_reset (cur data s) (length (txs data s)) = Lost ->
-  l0 data s = [] \/ lastoff data s = 0.
-Proof.
-  intros H Hs D1 Hw2 D2. pose proof Hs as [K S W L T O N P F Q G Z].
-  unfold weakb in D1. apply andb_prop in D1. destruct D1 as [Di Dm].
-  assert (HLost : cur data s = Lost -> l0 data s = [] \/ lastoff data s = 0).
-  { intros C. destruct (L C) as [C1|[C1|[C1|C1]]].
-    - left. exact C1.
-    - exfalso. destruct (pc data s); cbn in *; try discriminate; destruct m; discriminate.
-    - unfold freshlostb in C1. apply andb_prop in C1. destruct C1 as [C1 _].
-      apply andb_prop in C1. destruct C1 as [_ C1]. apply Nat.eqb_eq in C1. right. exact C1.
-    - exfalso. destruct (pc data s); cbn in *; discriminate. }
-  destruct (Nat.eq_dec (length (txs data s)) 0) as [E0|E0].
-  - pose proof (i_cur _ _ _ _ H) as Hc. unfold cur_inv in Hc. rewrite E0 in D2.
-    destruct (cur data s) as [c| |] eqn:Ec; cbn in D2.
-    + destruct Hc as [Hle _]. replace c with 0 in D2 by lia. discriminate.
-    + discriminate.
-    + apply HLost. reflexivity.
-  - assert (D3 : 0 < length (txs data s)) by lia.
-    destruct (cur_reset_lost_live s H D2 D3) as [C|C]; [apply HLost; exact C|].
-    right. unfold catching_up in Hw2. rewrite Dm, Di in Hw2. cbn [andb] in Hw2.
-    destruct (lastoff data s) as [|n] eqn:El; [reflexivity|exfalso].
-    assert (X0 : (0 <? Datatypes.S n) = true) by reflexivity.
-    assert (X3 : (0 <? length (txs data s)) = true) by (apply Nat.ltb_lt; exact D3).
-    rewrite X0, X3 in Hw2. cbn [andb] in Hw2. apply negb_false_iff in Hw2. apply andb_prop in Hw2.
-    destruct Hw2 as [X1 X2]. apply Nat.eqb_eq in X1, X2. destruct C; contradiction.
-Qed.
-
 (** ** a commit that leaves the control state alone *)
 Lemma safe_commit_same s t r s1 :
   inv s -> safe s ->
-  (r = true -> (recheck = true \/ postpendb (pc data s) = false) /\ catching_up data s = false) ->
+  (r = true -> recheck = true \/ postpendb (pc data s) = false) ->
   do_commit data s t r = Some s1 -> safe s1.
 Proof.
   intros H Hs Hwin E.
   destruct (do_commit_facts _ _ _ _ H Hs E) as [Hw [Hw' [Hbf [Hm [Hpc [Ho [Hl0 [Hss [Hcg Hd]]]]]]]]].
   pose proof Hs as [K S W L T O N P F Q G Z].
   assert (Hgen : gen data s <= gen data s1) by (destruct Hd as [[_ [A _]]|[_ [A _]]]; lia).
-  assert (Hlo : lastoff data s1 = lastoff data s) by (unfold lastoff; rewrite Hss; reflexivity).
+  assert (Hlo : reached data s1 = reached data s) by (unfold reached; rewrite Hss; reflexivity).
   assert (Hfl : flag data s1 = flag data s) by (unfold flag; rewrite Hss; reflexivity).
   assert (Hom : openmark data s1 = openmark data s) by (unfold openmark; rewrite Hss; reflexivity).
   constructor; rewrite ?Hpc, ?Hm, ?Ho, ?Hl0, ?Hlo, ?Hfl, ?Hcg.
@@ -408,7 +378,7 @@ Proof.
     + assert (Hlt : forall hg, hg_of (pc data s) = Some hg -> hg < gen data s1).
       { intros hg Hh. destruct (T hg Hh) as [T1 _]. lia. }
       assert (Hne : (cgen data s =? gen data s1) = false) by (apply Nat.eqb_neq; lia).
-      destruct (Hwin Br) as [Hw1 Hw2].
+      pose proof (Hwin Br) as Hw1.
       destruct (B2 A) as [D|[D|[D|[D|[D|[D1 [D2 D3]]]]]]]; auto.
       * (* closed *)
         right. right. left. destruct (O D) as [O1 _]. rewrite (P D), O1, Hne. reflexivity.
@@ -416,10 +386,10 @@ Proof.
       * destruct Hw1 as [Hr|Hn]; [|congruence].
         right. right. right. apply lost_ok_intro; [|assumption].
         unfold freeb. rewrite Hr, D. cbn. apply orb_true_r.
-      * (* a re-opened session at Idle: only the fresh-session rule saves it *)
-        assert (Di : idleish (pc data s) = true) by (unfold weakb in D1; apply andb_prop in D1; tauto).
-        destruct (weak_reset_lost s H Hs D1 Hw2 D2) as [C|C]; [left; exact C|].
-        right. right. left. rewrite Di, C, Hne. reflexivity.
+      * (* a re-opened session that has not reached the WAL end: the fresh-session rule saves it *)
+        unfold weakb in D1. apply andb_prop in D1. destruct D1 as [D1 Dr].
+        apply andb_prop in D1. destruct D1 as [Di _].
+        right. right. left. rewrite Di, Dr, Hne. reflexivity.
   - intros hg A. destruct (T hg A) as [T1 [T2 T3]].
     split; [lia|]. split; intros B; [specialize (T2 B)|specialize (T3 B)]; lia.
   - intros A. destruct (O A) as [O1 [O2 O3]]. auto.
@@ -434,15 +404,15 @@ Qed.
 (** ** environment steps *)
 
 Lemma window_reset_facts s :
-  (recheck || negb (post_pending true (pc data s))) && negb (catching_up data s) = true ->
-  (recheck = true \/ postpendb (pc data s) = false) /\ catching_up data s = false.
+  (recheck || negb (post_pending true (pc data s))) && (true || negb (catching_up data s)) = true ->
+  recheck = true \/ postpendb (pc data s) = false.
 Proof.
-  intros A. apply andb_prop in A. destruct A as [A B]. apply negb_true_iff in B. split; [|exact B].
+  intros A. apply andb_prop in A. destruct A as [A _].
   apply orb_prop in A. destruct A as [A|A]; [left; exact A|right]. apply negb_true_iff in A. exact A.
 Qed.
 
 Lemma safe_AppCommit s t r s' :
-  inv s -> safe s -> window_ok data true recheck s (AppCommit data t r) = true ->
+  inv s -> safe s -> window_ok data true recheck true s (AppCommit data t r) = true ->
   step s (AppCommit data t r) = Some s' -> safe s'.
 Proof.
   intros H Hs Hwin E. cbn in E. apply (safe_commit_same s t r s' H Hs); [|exact E].
@@ -474,13 +444,13 @@ Proof.
 Qed.
 
 Lemma safe_AppTruncate s s' :
-  inv s -> safe s -> window_ok data true recheck s (AppTruncate data) = true ->
+  inv s -> safe s -> window_ok data true recheck true s (AppTruncate data) = true ->
   step s (AppTruncate data) = Some s' -> safe s'.
 Proof.
   intros H Hs Hwin E. cbn in E.
   destruct (reset_enabled data s) eqn:Een; [|discriminate]. inversion E; subst s'. clear E.
   pose proof Hs as [K S W L T O N P F Q G Z].
-  cbn in Hwin. destruct (window_reset_facts s Hwin) as [Hw1 Hw2].
+  cbn in Hwin. pose proof (window_reset_facts s Hwin) as Hw1.
   unfold reset_enabled in Een. apply andb_prop in Een. destruct Een as [Een Ebf].
   apply andb_prop in Een. destruct Een as [Ew Eml].
   apply negb_true_iff in Ew. apply Nat.eqb_eq in Ebf.
@@ -501,14 +471,14 @@ Proof.
   - intros _ _ _. destruct Hcases as [A|[A|[A|[A|A]]]]; auto 6.
     right. right. right. right. change (weakb (reset_st data s true)) with (weakb s). rewrite A. apply orb_true_r.
   - intros A. destruct (S A) as [A2 _]. congruence.
-  - intros HL. unfold freshlostb. cbn. change (lastoff data (reset_st data s true)) with (lastoff data s).
+  - intros HL. unfold freshlostb. cbn. change (reached data (reset_st data s true)) with (reached data s).
     destruct Hcases as [A|[A|[A|[A|A]]]]; auto.
     + unfold at_end in A. cbn in A. destruct A as [A|[A|[A _]]]; [left; exact A| |]; congruence.
     + right. right. left. destruct (O A) as [O1 _]. rewrite (P A), O1, Hne. reflexivity.
     + right. right. right. apply lost_ok_intro; assumption.
-    + assert (Di : idleish (pc data s) = true) by (unfold weakb in A; apply andb_prop in A; tauto).
-      destruct (weak_reset_lost s H Hs A Hw2 HL) as [C|C]; [left; exact C|].
-      right. right. left. rewrite Di, C, Hne. reflexivity.
+    + unfold weakb in A. apply andb_prop in A. destruct A as [A Dr].
+      apply andb_prop in A. destruct A as [Di _].
+      right. right. left. rewrite Di, Dr, Hne. reflexivity.
   - intros hg A. destruct (T hg A) as [T1 [T2 T3]].
     split; [lia|]. split; intros B; [specialize (T2 B)|specialize (T3 B)]; lia.
   - intros _ hg A B. destruct (T hg A) as [T1 _]. lia.
@@ -523,7 +493,7 @@ Ltac triv :=
   try solve [intros; discriminate].
 
 Ltac prep :=
-  unfold weakb, freshlostb, lastoff, flag, openmark in *;
+  unfold weakb, freshlostb, lastoff, flag, openmark, reached in *;
   cbn in *;
   repeat match goal with E : pc _ _ = _ |- _ => progress (rewrite E in * ) end;
   cbn in *.
@@ -549,7 +519,7 @@ Ltac fin2 :=
 
 (** the fresh-session rule of commit 3b58009 *)
 Lemma fresh_verify_snap s :
-  lastoff data s = 0 -> flag data s = false -> cgen data s <> gen data s -> verify s = VSnap.
+  reached data s = false -> flag data s = false -> cgen data s <> gen data s -> verify s = VSnap.
 Proof.
   intros Hl Hf Hg. unfold Machine.verify. destruct (l0 data s); [reflexivity|].
   rewrite Hf, Hl. apply Nat.eqb_neq in Hg. rewrite Hg.
@@ -567,33 +537,43 @@ Proof.
   destruct (L A) as [B|[B|[B|B]]]; try congruence.
   - unfold Machine.verify. rewrite B. reflexivity.
   - unfold freshlostb in B. apply andb_prop in B. destruct B as [B B3].
-    apply andb_prop in B. destruct B as [_ B2]. apply Nat.eqb_eq in B2.
+    apply andb_prop in B. destruct B as [_ B2]. apply negb_true_iff in B2.
     apply negb_true_iff in B3. apply Nat.eqb_neq in B3.
     apply fresh_verify_snap; auto.
 Qed.
 
 Lemma do_sync_sess s k s1 :
-  do_sync s k = Some s1 -> (lastoff data s = 0 -> flag data s = false) -> cgen data s <= gen data s ->
-  openmark data s1 = openmark data s /\ (lastoff data s1 = 0 -> flag data s1 = false) /\
-  cgen data s1 <= gen data s1.
+  do_sync s k = Some s1 -> (reached data s = false -> flag data s = false) -> cgen data s <= gen data s ->
+  openmark data s1 = openmark data s /\ (reached data s1 = false -> flag data s1 = false) /\
+  cgen data s1 <= gen data s1 /\
+  (reached data s1 = true -> reached data s = true \/ (cfo data s1 = length (phys data s) /\ cgen data s1 = gen data s1)) /\
+  (reached data s = true -> reached data s1 = true).
 Proof.
   intros E Z G. revert E. unfold Machine.do_sync.
   destruct (negb (opened data s)); [discriminate|].
   destruct (phys data s) as [|p0 pr] eqn:Ep; [discriminate|].
   assert (Hw : forall x n c, let s' := write_file data s x n c in
-              openmark data s' = openmark data s /\ (lastoff data s' = 0 -> flag data s' = false) /\
-              cgen data s' <= gen data s').
-  { intros x n c. cbn. unfold lastoff, flag, openmark. cbn. split; [reflexivity|]. split; [|lia].
-    intros A. subst n. rewrite Ep. reflexivity. }
+              openmark data s' = openmark data s /\ (reached data s' = false -> flag data s' = false) /\
+              cgen data s' <= gen data s' /\
+              (reached data s' = true -> reached data s = true \/ (cfo data s' = length (p0 :: pr) /\ cgen data s' = gen data s')) /\
+              (reached data s = true -> reached data s' = true)).
+  { intros x n c. cbn. unfold reached, flag, openmark. cbn. split; [reflexivity|]. split.
+    - intros A. apply orb_false_iff in A. tauto.
+    - split; [lia|]. split.
+      + intros A. apply orb_prop in A. destruct A as [A|A]; [left; exact A|right].
+        apply Nat.eqb_eq in A. rewrite Ep in A. split; [exact A|reflexivity].
+      + intros A. rewrite A. reflexivity. }
   assert (Gi : forall c k0 cl nc, incr_st data lock s c k0 cl nc = Some s1 ->
-              openmark data s1 = openmark data s /\ (lastoff data s1 = 0 -> flag data s1 = false) /\
-              cgen data s1 <= gen data s1).
+              openmark data s1 = openmark data s /\ (reached data s1 = false -> flag data s1 = false) /\
+              cgen data s1 <= gen data s1 /\
+              (reached data s1 = true -> reached data s = true \/ (cfo data s1 = length (p0 :: pr) /\ cgen data s1 = gen data s1)) /\
+              (reached data s = true -> reached data s1 = true)).
   { intros c k0 cl nc. unfold incr_st.
     destruct (negb (c + k0 <=? length (txs data s))); [discriminate|].
     destruct (toend data s && negb (c + k0 =? length (txs data s))); [discriminate|].
     destruct (k0 =? 0).
-    - intros E. inversion E; subst. destruct cl; [|auto].
-      unfold set_flag, lastoff, flag, openmark. cbn. auto.
+    - intros E. inversion E; subst. destruct cl; [|auto 10].
+      unfold set_flag, reached, flag, openmark. cbn. auto 10.
     - intros E. inversion E; subst. apply Hw. }
   destruct (verify s).
   - intros E. inversion E; subst. apply Hw.
@@ -610,7 +590,8 @@ Proof.
   intros H Hs Ed Hp. pose proof Hs as [K S W L T O N P F Q G Z].
   destruct (do_sync_frame _ _ _ Ed) as [F1 [F2 [F3 [F4 [F5 [F6 [F7 [F8 F9]]]]]]]].
   destruct (do_sync_cur _ _ _ H Ed) as [C1 [C2 C3]].
-  destruct (do_sync_sess _ _ _ Ed Z G) as [M1 [M2 M3]].
+  destruct (do_sync_sess _ _ _ Ed Z G) as [M1 [M2 [M3 [M4 M5]]]].
+  pose proof (inv_do_sync _ _ _ _ _ _ _ _ H Ed) as H1.
   assert (Hcls : pendingb (pc data s) = false /\
                  freeb (pc data s) = false /\ postpendb (pc data s) = false /\
                  lost_okb (pc data s) (gen data s) = false /\ relb (pc data s) = false).
@@ -628,8 +609,21 @@ Proof.
     + left. unfold at_end in *. cbn. apply C1. exact A.
     + rewrite Q4 in A. cbn in A.
       destruct Hp as [[Hp Hq]|[[m [hg [Hp Hq]]]|[[hg [Hp Hq]]|[Hp Hq]]]]; subst p.
-      * right. right. right. right. unfold weakb in A. rewrite Hp in A. cbn [idleish andb] in A.
-        change (weakb (set_pc data s1 Idle)) with (openmark data s1). rewrite M1, A. reflexivity.
+      * unfold weakb in A. rewrite Hp in A. cbn [idleish andb] in A.
+        apply andb_prop in A. destruct A as [Aom Ar]. apply negb_true_iff in Ar.
+        destruct (reached data s1) eqn:Er1.
+        -- (* this very sync reached the end of the WAL file: the cursor is at the end *)
+           destruct (M4 eq_refl) as [B|[B1 B2]]; [congruence|]. left.
+           pose proof (i_cur _ _ _ _ H1) as Hc1. unfold cur_inv in Hc1.
+           unfold at_end. cbn. right. left.
+           destruct (cur data s1) as [c1| |] eqn:Ec1; [| |contradiction].
+           ++ destruct Hc1 as [Hle1 [_ [Hcfo1 _]]]. rewrite F1 in *.
+              f_equal. eapply flen_firstn_full; [eapply txs_ok_nonempty; apply (i_txs _ _ _ _ H)|exact Hle1|].
+              pose proof (flen_firstn_le (txs data s) c1). pose proof (i_phys _ _ _ _ H). lia.
+           ++ destruct Hc1 as [Hlt _]. lia.
+        -- right. right. right. right.
+           change (weakb (set_pc data s1 Idle)) with (openmark data s1 && negb (reached data s1)).
+           rewrite M1, Aom, Er1. reflexivity.
       * left. apply Hend. unfold toend. rewrite Hp. cbn. apply orb_true_r.
       * unfold weakb in A. rewrite Hp in A. discriminate.
       * unfold weakb in A. rewrite Hp in A. discriminate.
@@ -664,7 +658,7 @@ Proof.
   intros H Hs Ed Epc Hf. pose proof Hs as [K S W L T O N P F Q G Z].
   destruct (do_sync_frame _ _ _ Ed) as [F1 [F2 [F3 [F4 [F5 [F6 [F7 [F8 F9]]]]]]]].
   destruct (do_sync_cur _ _ _ H Ed) as [C1 [C2 C3]].
-  destruct (do_sync_sess _ _ _ Ed Z G) as [M1 [M2 M3]].
+  destruct (do_sync_sess _ _ _ Ed Z G) as [M1 [M2 [M3 [M4 M5]]]].
   rewrite Epc in *.
   destruct (T hg eq_refl) as [T1 _].
   assert (Hpend : pendingb (PMid m hg pre wn false) = false) by (destruct m; try discriminate; reflexivity).
@@ -723,8 +717,9 @@ Proof.
   intros H Hs E. cbn in E. pose proof Hs as [K S W L T O N P F Q G Z].
   destruct (opened data s) eqn:Eo; [discriminate|]. destruct (pc data s) eqn:Epc; try discriminate.
   inversion E; subst s'. clear E.
-  constructor; unfold freshlostb, weakb, lastoff, flag, openmark in *; cbn; rewrite ?Epc in *; cbn in *; triv.
-  - intros _ _ _. unfold at_end. cbn. destruct (l0 data s); [left; left; reflexivity|]. right. right. right. right. reflexivity.
+  constructor; unfold freshlostb, weakb, lastoff, flag, openmark, reached in *; cbn; rewrite ?Epc in *; cbn in *; triv.
+  - intros _ _ _. unfold at_end. cbn. destruct (l0 data s); [left; left; reflexivity|]. right. right. right. right.
+    destruct (O eq_refl) as [O1 _]. unfold reached. cbn. rewrite O1. reflexivity.
   - unfold acquire. destruct (backfilled data s =? length (txs data s)); discriminate.
 Qed.
 
@@ -914,9 +909,7 @@ Proof.
   destruct (do_commit data s t r) as [s1|] eqn:Ed; [|discriminate].
   inversion E; subst s'. clear E.
   assert (Hs1 : safe s1).
-  { apply (safe_commit_same s t r s1 H Hs); [|exact Ed]. intros _. split.
-    - right. rewrite Epc. reflexivity.
-    - unfold catching_up. rewrite Epc. cbn. rewrite andb_false_r. reflexivity. }
+  { apply (safe_commit_same s t r s1 H Hs); [|exact Ed]. intros _. right. rewrite Epc. reflexivity. }
   destruct (do_commit_facts _ _ _ _ H Hs Ed) as [_ [_ [_ [_ [Hpc _]]]]].
   apply safe_bump_pc; [exact Hs1|congruence].
 Qed.
@@ -1001,7 +994,7 @@ Proof.
   all: try solve [intros A; destruct (N A) as [B|B]; auto; discriminate].
   all: try solve [intros A; specialize (P A); congruence].
   all: try solve [intros _ _ _; left; unfold at_end; cbn; auto].
-  all: try solve [unfold lastoff, flag; cbn; intros A; rewrite A, Ep; reflexivity].
+  all: try solve [unfold reached, flag; cbn; intros A; apply orb_false_iff in A; tauto].
 Qed.
 
 (** Close, or the death of the process: the next session starts from the files *)
@@ -1010,7 +1003,7 @@ Lemma safe_closed s :
   safe (set_closed data s).
 Proof.
   intros Hs HJ. pose proof Hs as [K S W L T O N P F Q G Z].
-  constructor; unfold freshlostb, weakb, lastoff, flag, openmark; cbn; triv; auto 6.
+  constructor; unfold freshlostb, weakb, lastoff, flag, openmark, reached; cbn; triv; auto 6.
   intros A. destruct (HJ A) as [B|B]; [left; exact B|].
   right. right. left. apply negb_true_iff. apply Nat.eqb_neq. exact B.
 Qed.
@@ -1026,7 +1019,7 @@ Proof.
 Qed.
 
 Lemma safe_LsKill s s' :
-  inv s -> safe s -> window_ok data true recheck s (LsKill data) = true ->
+  inv s -> safe s -> window_ok data true recheck true s (LsKill data) = true ->
   step s (LsKill data) = Some s' -> safe s'.
 Proof.
   intros H Hs Hwin E. cbn in E. destruct (opened data s); [|discriminate].
@@ -1040,12 +1033,12 @@ Qed.
 Lemma safe_snap_frame s x : safe s -> safe (set_snap data s x).
 Proof.
   intros Hs. pose proof Hs as [K S W L T O N P F Q G Z].
-  constructor; unfold freshlostb, weakb, lastoff, flag, openmark in *; cbn; assumption.
+  constructor; unfold freshlostb, weakb, lastoff, flag, openmark, reached in *; cbn; assumption.
 Qed.
 Lemma safe_add_snap s x : safe s -> safe (add_snap data s x).
 Proof.
   intros Hs. pose proof Hs as [K S W L T O N P F Q G Z].
-  constructor; unfold freshlostb, weakb, lastoff, flag, openmark in *; cbn; assumption.
+  constructor; unfold freshlostb, weakb, lastoff, flag, openmark, reached in *; cbn; assumption.
 Qed.
 
 Lemma safe_LsSnapPos s g s' : safe s -> step s (LsSnapPos data g) = Some s' -> safe s'.
@@ -1055,17 +1048,19 @@ Proof.
   inversion E; subst. apply safe_snap_frame. exact Hs.
 Qed.
 
-Lemma safe_LsSnapRead s s' : safe s -> step s (LsSnapRead data) = Some s' -> safe s'.
+Lemma safe_LsSnapRead s chk s' : safe s -> step s (LsSnapRead data chk) = Some s' -> safe s'.
 Proof.
   intros Hs E. cbn in E. destruct (snap data s) as [[[[p we] sc] sg]|]; [|discriminate].
   destruct (phys data s); [discriminate|]. destruct (opened data s); [|discriminate].
+  match type of E with (if ?c then _ else _) = _ => destruct c end.
+  { inversion E; subst. apply safe_snap_frame. exact Hs. }
   destruct (snap_idx data (txs data s) we); [|discriminate].
   inversion E; subst. apply safe_add_snap, safe_snap_frame. exact Hs.
 Qed.
 
 (** ** every step preserves [safe] (control flow with both fixes) *)
 Theorem safe_step s l s' :
-  inv s -> safe s -> window_ok data true recheck s l = true ->
+  inv s -> safe s -> window_ok data true recheck true s l = true ->
   step s l = Some s' -> safe s'.
 Proof.
   intros H Hs Hwin E. destruct l.
@@ -1095,7 +1090,7 @@ Qed.
 Lemma init_safe s : init_ok data zero lock s -> safe s.
 Proof.
   intros [H1 [H2 [H3 [H4 [H5 [H6 [H7 [H8 [H9 [H10 [H11 [H12 [H13 [H14 H15]]]]]]]]]]]]]].
-  constructor; unfold freshlostb, weakb, lastoff, flag, openmark; rewrite ?H10, ?H13; cbn; triv; auto.
+  constructor; unfold freshlostb, weakb, lastoff, flag, openmark, reached; rewrite ?H10, ?H13; cbn; triv; auto.
   all: try solve [intros _ _ _; left; left; exact H9].
   all: try solve [intros _; left; exact H9].
   all: try solve [intros _; auto].
